@@ -21,6 +21,8 @@ Lemma sites_push_item : model_sites_push_item = f_dispatch_queue_push_item_sites
 Proof. reflexivity. Qed.
 Lemma sites_pop_head : model_sites_pop_head = f_dispatch_queue_pop_head_sites.
 Proof. reflexivity. Qed.
+Lemma sites_fast_path : model_sites_fast_path = f_dispatch_queue_try_acquire_barrier_sync_and_suspend_sites.
+Proof. reflexivity. Qed.
 Lemma sites_class_barrier_complete : model_sites_class_barrier_complete = f_dispatch_lane_class_barrier_complete_sites.
 Proof. reflexivity. Qed.
 
@@ -564,6 +566,9 @@ Qed.
 
 Lemma step_S_aaw : pcs s t = S_aaw -> gstep s t e = Some s' -> Inv s'.
 Proof. start Hpc. bd Hts. ret_inv Hts. ba Ha. local_fin. rewrite Hpc. reflexivity. Qed.
+
+Lemma step_S_ftail k : pcs s t = S_ftail k -> gstep s t e = Some s' -> Inv s'.
+Proof. start Hpc. bd Hts; ret_inv Hts; ba Ha; local_fin; rewrite Hpc; reflexivity. Qed.
 
 Lemma step_S_fload k : pcs s t = S_fload k -> gstep s t e = Some s' -> Inv s'.
 Proof.
@@ -1941,7 +1946,7 @@ Proof.
   first [ eapply step_Idle; eassumption | eapply step_A_xchg; eassumption | eapply step_A_head; eassumption
         | eapply step_A_link; eassumption | eapply step_A_probe; eassumption | eapply step_A_wload; eassumption
         | eapply step_A_wbody; eassumption | eapply step_A_root; eassumption | eapply step_A_ret; eassumption
-        | eapply step_S_aaw; eassumption | eapply step_S_fload; eassumption | eapply step_S_fbody; eassumption
+        | eapply step_S_aaw; eassumption | eapply step_S_ftail; eassumption | eapply step_S_fload; eassumption | eapply step_S_fbody; eassumption
         | eapply step_S_wprep; eassumption | eapply step_S_xchg; eassumption | eapply step_S_head; eassumption
         | eapply step_S_link; eassumption | eapply step_S_sw; eassumption | eapply step_S_pwload; eassumption
         | eapply step_S_pwbody; eassumption | eapply step_S_sub; eassumption | eapply step_S_eload; eassumption
